@@ -451,7 +451,7 @@ func c14RootSet(v ssa.Value) map[ssa.Value]bool {
 
 func c14R1(c *Ctx, ms []*c14Merge) {
 	const R = "C14.R1.merge-protocol"
-	c.Expect(R, 30)
+	c.Expect(R, 34)
 	for _, m := range ms {
 		c14R1Do(c, m)
 		c14R1Complete(c, m)
@@ -1206,7 +1206,7 @@ func c14R1Commit(c *Ctx, m *c14Merge) {
 
 func c14R2(c *Ctx, ms []*c14Merge) {
 	const R = "C14.R2.lock-discipline"
-	c.Expect(R, 20)
+	c.Expect(R, 22)
 	mergeFields := []string{"committed", "items", "status", "pending", "pendingStatus"}
 	const reason = "complete() reads m.items/m.status before locking: while committed==true (set by commit() before complete() is reached) assign() writes neither, so there is no concurrent writer; the premise is proved by the |premise obligations"
 	exempt := map[string]string{}
@@ -2429,6 +2429,7 @@ var c14Mutants = []Mutant{
 	{Name: "delete-indexing-ignores-ping", File: "registry/remote/repository.go", Old: "\tif ok {\n\t\t// referrers API is available, no client-side indexing needed\n\t\treturn nil\n\t}\n\treturn s.updateReferrersIndex(", New: "\t_ = ok\n\treturn s.updateReferrersIndex(", Expect: "C14.R3.indexing"},
 	{Name: "push-indexing-skipped-for-index-manifests", File: "registry/remote/repository.go", Old: "\t\tsubject = *manifest.Subject\n\t\tdesc.ArtifactType = manifest.ArtifactType\n\t\tdesc.Annotations = manifest.Annotations\n\tdefault:", New: "\t\treturn nil\n\tdefault:", Expect: "C14.R3.indexing"},
 	{Name: "tag-resolved-outside-merge", File: "registry/remote/repository.go", Old: "\t\t\t\t// valid case: no old referrers index\n\t\t\t\treturn nil\n", New: "\t\t\t\t_ = s.repo.Tag(ctx, subject, referrersTag)\n\t\t\t\treturn nil\n", Expect: "C14.R3.referrers-tag-users"},
+	{Name: "tag-handed-to-unlisted-callee", File: "registry/remote/repository.go", Old: "\tmerge, done := s.repo.referrersMergePool.Get(referrersTag)\n", New: "\tif _, perr := s.repo.ParseReference(referrersTag); perr != nil {\n\t\treturn perr\n\t}\n\tmerge, done := s.repo.referrersMergePool.Get(referrersTag)\n", Expect: "C14.R3.referrers-tag-users"},
 	// R4
 	{Name: "capability-swapped-unconditionally", File: "registry/remote/repository.go", Old: "if swapped := atomic.CompareAndSwapInt32(&r.referrersState, referrersStateUnknown, state); !swapped {", New: "if swapped := atomic.SwapInt32(&r.referrersState, state) == referrersStateUnknown; !swapped {", Expect: "C14.R4"},
 	{Name: "cas-from-any-state", File: "registry/remote/repository.go", Old: "atomic.CompareAndSwapInt32(&r.referrersState, referrersStateUnknown, state)", New: "atomic.CompareAndSwapInt32(&r.referrersState, r.loadReferrersState(), state)", Expect: "C14.R4"},
